@@ -531,11 +531,19 @@ pub struct Case {
     /// a second state taking part in the case (append / equality pairs)
     #[serde(default)]
     pub aux: Option<(bool, Root, Vec<Op>)>,
+    /// E3: transitions after `ops`, each optionally with a panic injected at (callback class, index)
+    #[serde(default)]
+    pub trail: Vec<(Op, Option<(usize, u64)>)>,
 }
 
 impl Case {
     pub fn signature(&self) -> String {
         let what = match (&self.probe, &self.last) {
+            (Some(p), _) if p == "fault-trail" => {
+                let (op, f) = self.trail.last().cloned().unwrap_or((Op::Clear, None));
+                let first = self.trail.iter().find(|x| x.1.is_some()).map(|x| format!("{}@{}", op_name(&x.0), CLASS_NAMES[x.1.unwrap().0])).unwrap_or_default();
+                format!("fault-trail[{first}..{}{}]", op_name(&op), f.map(|f| format!("@{}", CLASS_NAMES[f.0])).unwrap_or_default())
+            }
             (Some(p), _) => p.clone(),
             (None, Some(op)) => op_name(op).to_string(),
             _ => "constructor".into(),
@@ -652,6 +660,7 @@ impl<'a, H: HB> Explorer<'a, H> {
             detail,
             universe: self.cfg.universe(),
             aux: None,
+            trail: vec![],
         }
     }
 
@@ -726,11 +735,11 @@ impl<'a, H: HB> Explorer<'a, H> {
         {
             for (double, r) in roots {
                 self.stats.roots.fetch_add(1, AO::Relaxed);
-                crate::crash::set_case(|| Case { prop: cfg.prop.into(), hasher: H::NAME.into(), double, root: r.clone(), ops: vec![], last: None, probe: None, detail: String::new(), universe: universe.clone(), aux: None });
+                crate::crash::set_case(|| Case { prop: cfg.prop.into(), hasher: H::NAME.into(), double, root: r.clone(), ops: vec![], last: None, probe: None, detail: String::new(), universe: universe.clone(), aux: None, trail: vec![] });
                 let root = Arc::new((double, r.clone()));
                 match make_root::<H>(double, &r, &universe) {
                     Err(e) => {
-                        self.report(Case { prop: cfg.prop.into(), hasher: H::NAME.into(), double, root: r.clone(), ops: vec![], last: None, probe: None, detail: e, universe: universe.clone(), aux: None });
+                        self.report(Case { prop: cfg.prop.into(), hasher: H::NAME.into(), double, root: r.clone(), ops: vec![], last: None, probe: None, detail: e, universe: universe.clone(), aux: None, trail: vec![] });
                     }
                     Ok(q) => {
                         let s = q.snap();
